@@ -5,7 +5,8 @@
      named constructors    type_entry.rs:293,379,410,440,472,510  store type_patch's result
      replace_def           lib.rs:646-675         replacement by SANITISED definition name
                                                   (Algo/Sanitize.replace_lookup, C08)
-     cache_insert/lookup   conversions.rs:14-37   schema cache keyed without metadata;
+     cache_insert/lookup   conversions.rs:14-48   schema cache keyed without metadata AT ANY DEPTH
+                                                  (StripMetadata visitor, fix a0b7480);
                            convert.rs:35-40       consulted at convert_schema
      type_ident            type_entry.rs:1676-1806  how a type id is spelled at a use site
                                                   (map type: 1720-1742)
@@ -71,12 +72,13 @@ Definition replace_def (sanitize : ustring -> ustring) (repl : list (ustring * r
 (* ---------------------------------------------------------------- conversion cache *)
 Section Cache.
   Variable Sch : Type.                       (* schemars SchemaObject *)
-  Variable strip : Sch -> Sch.                 (* SchemaObject { metadata: None, ..s } *)
+  Variable strip : Sch -> Sch.                 (* without_metadata: metadata := None in the schema and,
+                                                  by the schemars Visitor, in every subschema *)
   Variable seqb : Sch -> Sch -> bool.          (* derived PartialEq *)
 
   Definition cache := list (Sch * entry).
 
-  (* SchemaCache::insert: push((strip schema, native entry)) *)
+  (* SchemaCache::insert: push((without_metadata(schema), native entry)) *)
   Definition cache_insert (c : cache) (s : Sch) (r : replacement) : cache := c ++ [(strip s, native_entry r)].
 
   (* SchemaCache::lookup: first entry whose key equals the stripped search schema *)
